@@ -8,6 +8,7 @@ import (
 	"encoding/json"
 	"errors"
 	"fmt"
+	"runtime"
 	"sort"
 	"strconv"
 	"strings"
@@ -42,6 +43,7 @@ type verifTask struct {
 	waitBySet  bool // enter Wait through Task.SetToWait + nil (as restart.FinishTaskWithRestart) instead of returning *state.Wait
 	undoWait   bool // the undo also waits for a reboot (waited status Undone)
 	undoWaited bool
+	inWait     bool // its handler asked to wait for a reboot and the simulator has not resolved that yet
 	lanes      []int
 	waits      []string
 	halts      []string
@@ -97,7 +99,7 @@ func (b *verifBackendA) Checkpoint(data []byte) error {
 		b.failed++
 		return errors.New("verif: injected checkpoint failure")
 	}
-	if b.st != nil && !b.st.VerifLockHeld() {
+	if b.st != nil && !b.st.VerifLockHeld() && b.w.isClient(verifGoID()) {
 		pw := &verifParkedWrite{data: append([]byte(nil), data...), ch: make(chan struct{}), seq: b.w.writeSeq}
 		b.w.writeSeq++
 		b.w.parkedWrites = append(b.w.parkedWrites, pw)
@@ -112,6 +114,19 @@ func (b *verifBackendA) Checkpoint(data []byte) error {
 	}
 	b.w.payloads = append(b.w.payloads, append([]byte(nil), data...))
 	return nil
+}
+
+// verifGoID returns the current goroutine's id (only used to tell the
+// simulator's own goroutine, which must never park, from the others).
+func verifGoID() int64 {
+	var buf [64]byte
+	n := runtime.Stack(buf[:], false)
+	f := strings.Fields(string(buf[:n]))
+	if len(f) < 2 {
+		return -1
+	}
+	id, _ := strconv.ParseInt(f[1], 10, 64)
+	return id
 }
 
 func (b *verifBackendA) EnsureBefore(d time.Duration) {
@@ -157,6 +172,9 @@ type verifWorldA struct {
 	changes []*verifChange
 	permute bool
 
+	mainGoID  int64
+	clientIDs map[int64]bool // goroutines of simulated API clients (the only ones that may park inside a checkpoint write)
+	nclient   int
 	crashes   int
 	abandoned bool
 	// checkpoints below floor were durable when the instance started;
@@ -225,10 +243,11 @@ type verifCfgA struct {
 	crash       bool
 	ckptFail    bool
 	spontaneous bool
+	clients     bool
 }
 
 func verifRunA(c *verifsim.Ctx) {
-	w := &verifWorldA{c: c, tasks: map[string]*verifTask{}, ackDone: map[string]bool{}}
+	w := &verifWorldA{c: c, tasks: map[string]*verifTask{}, ackDone: map[string]bool{}, mainGoID: verifGoID()}
 	w.installOrderHooks()
 	defer func() { state.VerifOrderTasks = nil; state.VerifOrderChanges = nil }()
 	t0 := time.Now()
@@ -244,6 +263,7 @@ func verifRunA(c *verifsim.Ctx) {
 	cfg.wait = c.Chance("cfg.wait", 1, 3)
 	cfg.at = c.Chance("cfg.at", 1, 4)
 	cfg.spontaneous = c.Chance("cfg.spont", 1, 2)
+	cfg.clients = c.Prop == "C04" && c.Chance("cfg.clients", 1, 2)
 	switch c.Prop {
 	case "C03":
 		cfg.aborts = cfg.faults && c.Chance("cfg.aborts", 2, 3)
@@ -396,6 +416,11 @@ func verifRunA(c *verifsim.Ctx) {
 			aborts++
 			continue
 		}
+		if cfg.clients && c.Chance("client-write?", 1, 8) {
+			w.actionStart = len(w.payloads)
+			w.clientWrite()
+			continue
+		}
 		if cfg.ckptFail && c.Chance("ckptfail?", 1, 25) {
 			w.be.mu.Lock()
 			w.be.failNext = 1 + c.Draw("ckptfail-n", 2)
@@ -521,6 +546,38 @@ func (w *verifWorldA) ensure() {
 	w.afterAction()
 }
 
+func (w *verifWorldA) isClient(id int64) bool {
+	w.mu.Lock()
+	defer w.mu.Unlock()
+	return w.clientIDs[id]
+}
+
+// clientWrite is an API request that modifies the state (as any daemon
+// request does): Lock, change something, Unlock (which checkpoints).
+func (w *verifWorldA) clientWrite() {
+	w.nclient++
+	n := w.nclient
+	st := w.st
+	w.c.Logf("client write #%d", n)
+	w.c.Count("client-writes")
+	go func() {
+		id := verifGoID()
+		w.mu.Lock()
+		if w.clientIDs == nil {
+			w.clientIDs = map[int64]bool{}
+		}
+		w.clientIDs[id] = true
+		w.mu.Unlock()
+		st.Lock()
+		st.Set("verif-client", n)
+		st.Unlock()
+		w.mu.Lock()
+		delete(w.clientIDs, id)
+		w.mu.Unlock()
+	}()
+	w.afterAction()
+}
+
 func (w *verifWorldA) landWrite(pw *verifParkedWrite) {
 	for i, q := range w.parkedWrites {
 		if q == pw {
@@ -601,6 +658,7 @@ func (w *verifWorldA) resolveWait(id string) {
 		t := w.st.Task(id)
 		if t != nil && t.Status() == state.WaitStatus {
 			// what overlord/restart does once the reboot happened
+			w.tasks[id].inWait = false
 			t.SetStatus(t.WaitedStatus())
 			w.c.Logf("resolve-wait %s -> %v", w.tasks[id].label, t.Status())
 			w.c.Count("probe:wait-resolved")
@@ -680,6 +738,7 @@ func (w *verifWorldA) release(p *verifParked) {
 			vt.undoApplied++
 			vt.lastOp = "undo"
 			c.Count("probe:undo-wait-returned")
+			vt.inWait = true
 			if vt.waitBySet {
 				w.setToWait(vt, state.UndoneStatus)
 			} else {
@@ -708,6 +767,7 @@ func (w *verifWorldA) release(p *verifParked) {
 		case vt.script == verifScriptWait && vt.doApplied == 0:
 			vt.doApplied++
 			vt.lastOp = "do"
+			vt.inWait = true
 			if vt.waitBySet && !killed {
 				w.setToWait(vt, state.DoneStatus)
 			} else {
@@ -825,6 +885,9 @@ func (w *verifWorldA) observe() {
 				wt := w.st.Task(wid)
 				if wt == nil {
 					continue
+				}
+				if wt.Status() == state.DoneStatus && w.tasks[wid].inWait && c.Active("C02") {
+					c.Violate("C02/start-while-prerequisite-waits", "%s started although its prerequisite %s asked to wait for a reboot that has not happened yet (it is reported %v)", vt.label, w.tasks[wid].label, wt.Status())
 				}
 				if wt.Status() != state.DoneStatus && c.Active("C02") {
 					cls := "C02/start-before-prerequisite"
